@@ -21,6 +21,7 @@ import numpy as np
 
 from simkit import forksim
 from simkit.baton import HarnessError
+from simkit import ccmemo
 from simkit.ccmemo import MemoSubprocess
 from simkit.common import REPO, canon, scratch_root, tree_id
 from simkit.prng import Streams
@@ -579,7 +580,7 @@ def child_init(cache_dir):
         from sasmodels import kerneldll
         kerneldll.SAS_DLL_PATH = cache_dir
         os.makedirs(cache_dir, exist_ok=True)
-        kerneldll.subprocess = MemoSubprocess(G["memo"])
+        ccmemo.install(kerneldll, MemoSubprocess(G["memo"]))
         state["objs"] = {}
     return init
 
